@@ -81,7 +81,7 @@ func init() {
 		Run:         c16Run,
 		Race:        true,
 		CaseTimeout: 420 * time.Second,
-		Floors: []string{"floor_acked_ops_ge_1000", "floor_conflicts_ge_20", "floor_overlap_matrix_complete",
+		Floors: []string{"ctxn_cases_one_shared_context", "ctxn_cases_context_per_goroutine", "floor_acked_ops_ge_1000", "floor_conflicts_ge_20", "floor_overlap_matrix_complete",
 			"merges_completed", "merge_vs_local_write_overlaps", "ctxn_commits_ok", "ctxn_commits_conflicted", "partitions_linearizable"},
 		PostProcess: c16Post,
 		Assumptions: []string{
@@ -1216,6 +1216,16 @@ func c16RunCtxn(ctx context.Context, c core.Case, p c16Params, r *core.Rec) {
 
 	txn, err := a.DB.NewConcurrentTxn(ctx, false)
 	core.Must(err)
+	// Two legitimate ways of handing the shared transaction to the goroutines: every goroutine
+	// initialises a context of its own, or all of them use ONE context initialised once (then
+	// whatever InitContext attaches to the context - caches - is shared between them as well).
+	sharedCtx := db.InitContext(ctx, txn)
+	useShared := (c.Seed+uint64(c.Index))%2 == 0
+	if useShared {
+		r.Count("ctxn_cases_one_shared_context", 1)
+	} else {
+		r.Count("ctxn_cases_context_per_goroutine", 1)
+	}
 	docs := make([]map[string]*c16TDoc, p.G)
 	var ackedWrites, opErrs atomic.Int64
 	var wg sync.WaitGroup
@@ -1227,6 +1237,9 @@ func c16RunCtxn(ctx context.Context, c core.Case, p c16Params, r *core.Rec) {
 			defer c16Guard(r, "shared concurrent transaction")
 			rng := rand.New(rand.NewPCG(c.Seed, uint64(g)+1))
 			gctx := db.InitContext(ctx, txn)
+			if useShared {
+				gctx = sharedCtx
+			}
 			mine := docs[g]
 			order := []string{pre[g].Key.String()}
 			ctr := 0
